@@ -34,6 +34,9 @@ E2.  Five families of root cases:
   list) is far below 1e-5 of the coordinate magnitude, yet they are distinct hull vertices: the
   exact tessellation of exactly the floats handed over still decides, and the result must not
   depend on the start point, the direction, the translation or the scale.
+* ``aperture`` - the array is small compared with the boundary: one jittered layout shrunk about a
+  point to 2^-10 .. 2^-17 of its size (boundary 1.5e3 .. 4e5 times the aperture) x {centre} x
+  {boundary} x {scale} x {one more sensor 1e3 / 1e5 extents outside}; exact tessellation decides.
 * ``mc``   - ``montecarlo_fn`` for one (generator distribution, spatial
   distribution, generator count, means, stddevs, weights) and under it every
   n_realizations x seed; statistics recomputed from the returned realisations
@@ -762,6 +765,61 @@ def run_outline(root, ctx, tier):
 
 
 # ---------------------------------------------------------------------------
+# aperture roots: the size of the array compared with the size of the boundary
+
+APERTURE_RATIOS = [2.0 ** -10, 2.0 ** -13, 2.0 ** -17]       # array shrunk about a point: boundary / aperture ~ 1.5e3 .. 2e5
+APERTURE_CENTRES = {"lattice-centre": (1.0, 1.0), "origin": (0.0, 0.0)}     # both strictly inside all boundaries
+APERTURE_FAR = [0.0, 1e3, 1e5]      # one more sensor this many extents away from the boundary (0: none)
+APERTURE_SPACE = dict(ratio=APERTURE_RATIOS, centre=list(APERTURE_CENTRES), boundary=BOUNDARY_NAMES,
+                      scale=SCALES, far=APERTURE_FAR)
+
+
+def aperture_geometry(root, case):
+    L = lattice(root["family"])
+    cx, cy = APERTURE_CENTRES[case["centre"]]
+    r = case["ratio"]
+    s = [(cx + r * (L[i][0] - 1.0), cy + r * (L[i][1] - 1.0)) for i in root["subset"]]
+    if case["far"]:
+        s.insert(1, (case["far"] * EXTENT, -0.75 * case["far"] * EXTENT))
+    return place(s, 0.0, case["scale"]), place(BOUNDARIES[case["boundary"]], 0.0, case["scale"])
+
+
+def run_aperture(root, ctx, tier):
+    n = len(root["subset"])
+    for case in product.deviations(APERTURE_SPACE, root["k"]):
+        ctx.count("states")
+        sensors, boundary = aperture_geometry(root, case)
+        ref = RV.tessellate(sensors, boundary)
+        if len(ref["indices"]) != n:
+            raise AssertionError("alphabet: the compact array must lie inside the boundary, the far sensor outside")
+        ctx.count("transitions")
+        res = call_weights(sensors, boundary)
+        problems = judge_weights(res, ref, 1e-9)
+        ctx.count("validated")
+        ctx.count("aperture_cases")
+        xs = [sensors[i][0] for i in ref["indices"]]
+        ys = [sensors[i][1] for i in ref["indices"]]
+        bx = [p[0] for p in boundary]
+        by = [p[1] for p in boundary]
+        rel = max(max(bx) - min(bx), max(by) - min(by)) / max(max(xs) - min(xs), max(ys) - min(ys))
+        ctx.count("aperture_boundary_over_1e%d_apertures" % min(5, int(math.floor(math.log10(rel)))))
+        if case["far"]:
+            ctx.count("aperture_far_sensor_dropped")
+        for tag, expl, exp, obs in problems:
+            ctx.violation(f"C14:spatial_weights:compact-array-in-wide-boundary:{tag}", root,
+                          detail=dict(case=case, sensors=sensors, boundary=boundary,
+                                      boundary_extent_over_array_aperture=rel,
+                                      call="HvsrSpatial(sensors).spatial_weights(boundary)"),
+                          expected=exp, observed=obs,
+                          explanation=f"boundary {rel:.3g} times as wide as the array inside it: " + expl)
+        if problems:
+            ctx.outcome(("aperture", "problem", [p[0] for p in problems]))
+            continue
+        ctx.outcome(("aperture", case["ratio"], [round(float(ref["weights"][i]), 9) for i in ref["indices"]]))
+        ctx.nontrivial_case(("aperture", root["subset"], case["ratio"], case["centre"], case["boundary"]))
+
+
+# ---------------------------------------------------------------------------
 # montecarlo_fn roots
 
 DISTS = ("lognormal", "normal")
@@ -1036,6 +1094,12 @@ def roots(tier, seed):
     for k in ((6,) if tier == "quick" else (4, 5, 6)):
         for sub in itertools.combinations(range(9), k):
             out.append(dict(kind="outline", family="jitter", subset=list(sub)))
+    # compact arrays in wide boundaries: quick = the 84 6-sensor layouts within 2 deviations;
+    # thorough = all 336 layouts, full product
+    for k in ((6,) if tier == "quick" else (4, 5, 6)):
+        for sub in itertools.combinations(range(9), k):
+            out.append(dict(kind="aperture", family="jitter", subset=list(sub),
+                            k=2 if tier == "quick" else None))
     # histories: one root per (layout pair, first request)
     for layout in range(1 if tier == "quick" else len(SESSION_LAYOUTS)):
         for first in range(len(session_menu())):
@@ -1057,6 +1121,8 @@ def run_root(root, ctx, tier):
         run_session(root, ctx, tier)
     elif root["kind"] == "outline":
         run_outline(root, ctx, tier)
+    elif root["kind"] == "aperture":
+        run_aperture(root, ctx, tier)
     else:
         run_mc(root, ctx, tier)
 
@@ -1070,6 +1136,8 @@ def finalize(ctx, tier):
             "session_judged:same-bounding-box-other-shape-served-by-this-object",
             "outline_closed_ring", "outline_ends_distinct_within_1e-5_of_magnitude",
             "outline_invariance_compared", "outline_regions_checked",
+            "aperture_boundary_over_1e3_apertures", "aperture_boundary_over_1e4_apertures",
+            "aperture_boundary_over_1e5_apertures", "aperture_far_sensor_dropped",
             "session_judged:first-request", "session_judged:after-valid-request",
             "session_judged:boundary-array-overwritten-in-place",
             "session_judged:after-refused-request-on-this-object",
@@ -1131,6 +1199,14 @@ def describe(tier):
              "non-negativity, sum, area fractions) and against the untransformed run with the list in its "
              "first form (invariance under start point, direction, translation, scale); bounded_voronoi regions "
              "at the untranslated, unscaled cases.  "
+             "aperture roots: " + ("the 84 6-sensor jittered layouts, every case within 2 deviations"
+                                   if tier == "quick" else "all 336 jittered layouts, the full product")
+             + " of {array shrunk about a point to 2^-10, 2^-13, 2^-17 of its size, so that the boundary is "
+             "1.5e3 .. 4e5 times as wide as the array inside it} x {about the lattice centre, about the origin} "
+             "x 4 boundaries x scale {1,1e-3,1e3} x {no further sensor, one more sensor 1e3 / 1e5 extents "
+             "outside the boundary (the reverse: all sensors spread far wider than the boundary)}; each case = "
+             "one real spatial_weights call judged against the exact tessellation (indices, non-negativity, "
+             "sum, area fractions at 1e-9).  "
              "mc roots: full product of generator/spatial distribution (4) x generator count {4,2} x "
              "3 mean menus x 3 stddev menus (incl. all zero) x 5 weight menus (one produced by the real "
              "tessellation); under each n_realizations {1,10,1000} x seeds "
@@ -1144,6 +1220,8 @@ def describe(tier):
                     twin_cases_per_4_sensor_root=product.size(twin_space(4, tier), 2 if tier == "quick" else 3),
                     outline_roots=84 if tier == "quick" else 336,
                     outline_cases_per_root=product.size(outline_space(tier), None),
+                    aperture_roots=84 if tier == "quick" else 336,
+                    aperture_cases_per_root=product.size(APERTURE_SPACE, 2 if tier == "quick" else None),
                     session_menu=len(session_menu()), session_depth="2" if tier == "quick" else "2 (full menu), 3 (reduced menu)",
                     session_histories=(len(session_menu()) * (1 + len(session_menu())) * (1 if tier == "quick" else 3)
                                        + (0 if tier == "quick" else
@@ -1161,6 +1239,8 @@ def describe(tier):
                      "and first two points are generated (not e.g. equal area or equal centroid)",
                      "neighbouring boundary points are at least 2^-10 pitches apart (before scaling) and are all "
                      "hull vertices; the hull is always taken of exactly the floats handed over",
+                     "boundary extent / array aperture stays within 4e5 and absolute coordinates within 4e8 "
+                     "(boundary itself within 6e3 units); larger ratios or boundaries are not generated",
                      "a history is a sequence of requests in one process on objects created at its start; "
                      "requests the statement does not quantify over (fewer than four sensors inside, malformed "
                      "arguments) may raise or return anything, but the requests after them are judged",
